@@ -69,6 +69,7 @@ func cmdCheck(args []string) int {
 		fmt.Fprintln(os.Stderr, "check: --prop required")
 		return 2
 	}
+	currentTier = *tier
 	tmo := *timeout
 	if tmo == 0 {
 		tmo = 20
